@@ -4,6 +4,9 @@ import json
 SC="stateless model checking of the implementation under a controlled scheduler (iterative preemption/delay bounding)"
 ENUM="bounded-exhaustive enumeration over explicit boundary alphabets, every case executed on the real code and compared with a reference model written from the property statement"
 CHECKS = {
+ "C02": dict(engine="enum", technique=ENUM,
+   text="genuine sessions of 32 configurations and several chunk shapes are recorded between the real client and server, split into structural segments, and every tamper operator (bit flips at every byte of handshake/length chunks, cuts at every offset, drop/duplicate/swap/insert/replace of every chunk and pair, reflection, whole-stream substitution and splices with other sessions under the same, another held and a foreign key) is applied at every structural position and fed to a fresh real endpoint under three reader modes, including reads after the first error",
+   note="genuine peer = recorded session with the longest common prefix; delivery up to the tamper point and time windows are C01/C03"),
  "C09": dict(engine="enum", technique=ENUM,
    text="router configurations (full products of criterion kinds absent/present/inverted over a small universe, every port representation, route lists: all ordered pairs and triples of a 12-route core x defaults) rendered as JSON, loaded by the real Config.Router and queried through the real GetTCPClient/GetUDPClient with boundary requests and scripted resolvers; a reference returns the set of permitted outcomes",
    note="GeoIP criteria cannot be exercised (no database in the image); reference leaves evaluation order and error values open"),
